@@ -291,6 +291,11 @@ pub fn run(cfg: &RunCfg) {
   let n_bases = if cfg.tier == Tier::Quick { quick_exhaustive_bases() } else { 3 };
   let ex: u64 = (0..n_bases).map(exhaustive_count).sum();
   let n = ex + if cfg.tier == Tier::Quick { 2000 } else { 40000 };
+  // registry (stage B2) worlds with faults in package documents, version manifests, cache-only
+  // probes, content loads and package files
+  let nj = if cfg.tier == Tier::Quick { 3000 } else { 60000 };
   let tier = cfg.tier;
-  run_cases(cfg, n, |seed, k| gen_case(seed, k, tier));
+  run_cases(cfg, n + nj, |seed, k| {
+    if k < n { gen_case(seed, k, tier) } else { crate::props::jsr::gen_case(seed, k - n, crate::props::jsr::Flavour::Faults) }
+  });
 }
